@@ -483,6 +483,8 @@ static void m_addtagref(int s)
     int32 res = Vaddtagref(slot[s].vkey, t, r);
     printf("T vg addtagref %d %d %d => ", s, t, r); if (res == FAIL) printf("fail\n"); else printf("%d\n", (int)res);
     if (g->n >= 65535) { if (res != FAIL) hk_fail("vg-full", "Vaddtagref into a vgroup with 65535 members returned %d", (int)res); return; }
+    /* since 6287f87 a vgroup that is not attached for writing is refused (exact access tracking: the Lean model; here: a write handle must work) */
+    if (res == FAIL && !slot[s].w) { hk_stat("op_add_refused_r", 1); return; }
     g->tag[g->n] = (uint16)t; g->rf[g->n] = (uint16)r; g->n++;
     if (res != g->n) hk_fail("vg-add", "Vaddtagref returned %d, shadow count %d", (int)res, g->n);
     hk_stat("op_add", 1);
@@ -531,6 +533,7 @@ static void m_deltagref(int s)
     printf("T vg deltagref %d %d %d => %s\n", s, t, r, res == FAIL ? "fail" : "ok");
     int at = -1;
     for (int i = 0; i < g->n && at < 0; i++) if (g->tag[i] == t && g->rf[i] == r) at = i;
+    if (res == FAIL && !slot[s].w) { hk_stat("op_del_refused_r", 1); return; }   /* 6287f87: refused on a vgroup not attached for writing */
     if ((at >= 0) != (res != FAIL)) { hk_fail("vg-del", "Vdeletetagref(%d,%d)=%d shadow index %d", t, r, (int)res, at); return; }
     if (at >= 0) {
         memmove(g->tag + at, g->tag + at + 1, sizeof(uint16) * (size_t)(g->n - at - 1));
@@ -674,7 +677,9 @@ static void history_case(int k)
         if (big && st == steps / 2 && (s = pick_live_slot()) >= 0) {
             static const int targets[] = {63, 64, 65, 127, 128, 129, 130, 255, 256, 257, 300, 513};
             int target = HK_PICK(targets);
-            while (sg[slot[s].gi].n < target) m_addtagref(s);
+            /* growth needs a handle whose vgroup is attached for writing (adds through a read attachment are refused since 6287f87) */
+            for (int tries = 0; tries < 8 && !slot[s].w; tries++) { int s2 = pick_live_slot(); if (s2 >= 0) s = s2; }
+            while (sg[slot[s].gi].n < target) { int before = sg[slot[s].gi].n; m_addtagref(s); if (sg[slot[s].gi].n == before) break; }
             check_members(s, "after growth");
             q_gettagrefs(s);
             for (int j = 0; j < 6; j++) m_deltagref(s);
